@@ -247,8 +247,7 @@ func vC43_consumer() {
 	vAssume(x.confirmedSeq >= 0 && x.confirmedSeq < 1<<62)
 	x.expectedSeq = x.confirmedSeq + 1
 	x.requestUpToSeq = vNondetInt64("requestUpToSeq")
-	nbuf := vNondetInt("bufferLen")
-	vAssume(nbuf >= 0 && nbuf <= 3)
+	nbuf := vCase("bufLen")
 	for i := 0; i < nbuf; i++ {
 		x.buffer = append(x.buffer, vC43_sequenced("buf"))
 	}
